@@ -1,6 +1,642 @@
-//! C04 — not built yet.
-use mcx::{Ctx, Value};
-pub fn run(_ctx: &Ctx, _replay: Option<&Value>) -> i32 {
-    eprintln!("C04: check not built yet");
-    2
+//! C04 — the AIR rejects any deviation from an operation's defined effect.
+//!
+//! Fault enumeration on honest traces: for every row pair (i, i+1), i < n-2, of every trace of a
+//! covering program family, every candidate cell (next-row stack / depth / overflow-address /
+//! clk / fmp cells, current-row helper registers and h0, next-row chiplet cells, range-checker cells
+//! and the b_range column) x a fixed delta alphabet is altered, one cell at a time, and the frame is
+//! evaluated with the real `ProcessorAir`. A mutation that leaves every transition constraint zero is
+//! judged against the specification (`spec_free`, written from docs/src/design/**): if the documentation
+//! leaves that cell free for that operation (set by a lookup / bus, by the prover non-deterministically,
+//! or outside the operation classes the property names) it is counted `spec_free`; otherwise it is a
+//! violation: the AIR accepts a deviation from the operation's documented effect.
+
+use crate::airx::{self, Q};
+use crate::common::*;
+use crate::progs::{self, ProgCase};
+use mcx::{json, Ctx, Value};
+use rayon::prelude::*;
+use std::collections::BTreeMap;
+use std::sync::Mutex;
+use vm_core::{Felt, FieldElement, StarkField};
+use winter_air::{Air, AuxTraceRandElements, EvaluationFrame};
+use winter_prover::Trace;
+
+const CLK: usize = 0;
+const FMP: usize = 1;
+const OPB: usize = 9;
+const HELPER0: usize = 18; // decoder hasher-state columns 2..8 hold the user-op helper registers
+const S0: usize = 32;
+const B0: usize = 48;
+const B1: usize = 49;
+const H0: usize = 50;
+const RANGE_M: usize = 51;
+const RANGE_V: usize = 52;
+const CHIP: usize = 53;
+const CHIP_END: usize = 70;
+const AUX_B_RANGE: usize = 4;
+
+#[derive(Clone, Copy, Debug, PartialEq, Eq, PartialOrd, Ord)]
+enum Cell {
+    /// next-row stack position
+    S(usize),
+    B0,
+    B1,
+    /// current-row overflow helper
+    H0Cur,
+    Clk,
+    Fmp,
+    /// current-row helper register k
+    Helper(usize),
+    /// next-row chiplet column (offset within the chiplets segment)
+    Chip(usize),
+    RangeM,
+    RangeV,
+    BRange,
+}
+
+impl Cell {
+    fn name(&self) -> String {
+        match self {
+            Cell::S(i) => format!("s{i}'"),
+            Cell::B0 => "b0'".into(),
+            Cell::B1 => "b1'".into(),
+            Cell::H0Cur => "h0".into(),
+            Cell::Clk => "clk'".into(),
+            Cell::Fmp => "fmp'".into(),
+            Cell::Helper(k) => format!("helper{k}"),
+            Cell::Chip(c) => format!("chiplets[{c}]'"),
+            Cell::RangeM => "range_m'".into(),
+            Cell::RangeV => "range_v'".into(),
+            Cell::BRange => "b_range'".into(),
+        }
+    }
+    fn col(&self) -> (usize, bool) {
+        // (main column, lives in the next row?)
+        match self {
+            Cell::S(i) => (S0 + i, true),
+            Cell::B0 => (B0, true),
+            Cell::B1 => (B1, true),
+            Cell::H0Cur => (H0, false),
+            Cell::Clk => (CLK, true),
+            Cell::Fmp => (FMP, true),
+            Cell::Helper(k) => (HELPER0 + k, false),
+            Cell::Chip(c) => (CHIP + c, true),
+            Cell::RangeM => (RANGE_M, true),
+            Cell::RangeV => (RANGE_V, true),
+            Cell::BRange => (usize::MAX, true),
+        }
+    }
+}
+
+fn deltas(old: Felt, neighbour: Felt) -> Vec<Felt> {
+    let two16 = Felt::new(1 << 16);
+    let two32 = Felt::new(1 << 32);
+    let mut v = vec![old + Felt::ONE, old - Felt::ONE, old + old, Felt::ZERO, Felt::ONE, old + two16, old + two32, neighbour];
+    v.retain(|x| *x != old);
+    v.dedup();
+    v
+}
+
+fn op_name(o: u8) -> &'static str {
+    match o {
+        0 => "NOOP", 1 => "EQZ", 2 => "NEG", 3 => "INV", 4 => "INCR", 5 => "NOT", 6 => "FMPADD", 7 => "MLOAD", 8 => "SWAP", 9 => "CALLER",
+        10 => "MOVUP2", 11 => "MOVDN2", 12 => "MOVUP3", 13 => "MOVDN3", 14 => "ADVPOPW", 15 => "EXPACC", 16 => "MOVUP4", 17 => "MOVDN4",
+        18 => "MOVUP5", 19 => "MOVDN5", 20 => "MOVUP6", 21 => "MOVDN6", 22 => "MOVUP7", 23 => "MOVDN7", 24 => "SWAPW", 25 => "EXT2MUL",
+        26 => "MOVUP8", 27 => "MOVDN8", 28 => "SWAPW2", 29 => "SWAPW3", 30 => "SWAPDW", 32 => "ASSERT", 33 => "EQ", 34 => "ADD", 35 => "MUL",
+        36 => "AND", 37 => "OR", 38 => "U32AND", 39 => "U32XOR", 40 => "FRIE2F4", 41 => "DROP", 42 => "CSWAP", 43 => "CSWAPW", 44 => "MLOADW",
+        45 => "MSTORE", 46 => "MSTOREW", 47 => "FMPUPDATE", 48 => "PAD", 49 => "DUP", 50 => "DUP1", 51 => "DUP2", 52 => "DUP3", 53 => "DUP4",
+        54 => "DUP5", 55 => "DUP6", 56 => "DUP7", 57 => "DUP9", 58 => "DUP11", 59 => "DUP13", 60 => "DUP15", 61 => "ADVPOP", 62 => "SDEPTH",
+        63 => "CLK", 64 => "U32ADD", 66 => "U32SUB", 68 => "U32MUL", 70 => "U32DIV", 72 => "U32SPLIT", 74 => "U32ASSERT2", 76 => "U32ADD3",
+        78 => "U32MADD", 80 => "HPERM", 81 => "MPVERIFY", 82 => "PIPE", 83 => "MSTREAM", 84 => "SPLIT", 85 => "LOOP", 86 => "SPAN", 87 => "JOIN",
+        88 => "DYN", 89 => "RCOMBBASE", 96 => "MRUPDATE", 100 => "PUSH", 104 => "SYSCALL", 108 => "CALL", 112 => "END", 116 => "REPEAT",
+        120 => "RESPAN", 124 => "HALT",
+        _ => "?",
+    }
+}
+
+/// which chiplet a row of the chiplets segment belongs to (selector columns, docs/src/design/chiplets/main.md)
+fn chiplet_kind(cur: &[Felt]) -> &'static str {
+    let s = |i: usize| cur[CHIP + i].as_int();
+    if s(0) == 0 {
+        "hasher"
+    } else if s(1) == 0 {
+        "bitwise"
+    } else if s(2) == 0 {
+        "memory"
+    } else if s(3) == 0 {
+        "kernel_rom"
+    } else {
+        "padding"
+    }
+}
+
+#[derive(Default)]
+struct Tally {
+    /// (region/op, cell) -> (mutations, rejected, spec_free, violations)
+    per: BTreeMap<(String, String), [u64; 4]>,
+    frames: u64,
+    rows: u64,
+}
+
+/// context of a row pair that the specification's case distinctions need
+struct RowCtx {
+    opcode: u8,
+    depth: u64,
+    /// f_ov of the current row (depth > 16)
+    ov: bool,
+    chiplet: &'static str,
+    chiplet_next: &'static str,
+    row: usize,
+    n: usize,
+    row_is_padding: bool,
+    cur: Vec<Felt>,
+    next: Vec<Felt>,
+}
+
+/// documented stack effect of an operation (docs/src/design/stack/*.md, decoder/main.md):
+/// (shift kind, first position the general rule applies to, top cells fixed by an operation-specific
+/// transition constraint)
+#[derive(Clone, Copy, PartialEq)]
+enum Shift {
+    None,
+    Left,
+    Right,
+}
+
+struct Effect {
+    shift: Shift,
+    from: usize,
+    /// next-row positions < `from` (or `from - 1` for a left shift) that a documented
+    /// operation-specific transition constraint determines
+    top: &'static [usize],
+    /// false: the operation is outside the classes the property names (I/O, crypto, FRI) or has no
+    /// constraint description in docs/src/design; only its documented shift is in scope
+    in_scope_top: bool,
+}
+
+fn effect(op: u8, x: &RowCtx) -> Option<Effect> {
+    use Shift::*;
+    let e = |shift, from, top: &'static [usize], in_scope_top| Some(Effect { shift, from, top, in_scope_top });
+    match op_name(op) {
+        "NOOP" | "SPAN" | "JOIN" | "RESPAN" | "HALT" | "CALL" | "SYSCALL" | "DYN" => e(None, 0, &[], true),
+        "EQZ" | "NEG" | "INV" | "INCR" | "NOT" | "FMPADD" => e(None, 1, &[0], true),
+        "MLOAD" => e(None, 1, &[], false),
+        "SWAP" => e(None, 2, &[0, 1], true),
+        "MOVUP2" | "MOVDN2" => e(None, 3, &[0, 1, 2], true),
+        "MOVUP3" | "MOVDN3" => e(None, 4, &[0, 1, 2, 3], true),
+        "MOVUP4" | "MOVDN4" => e(None, 5, &[0, 1, 2, 3, 4], true),
+        "MOVUP5" | "MOVDN5" => e(None, 6, &[0, 1, 2, 3, 4, 5], true),
+        "MOVUP6" | "MOVDN6" => e(None, 7, &[0, 1, 2, 3, 4, 5, 6], true),
+        "MOVUP7" | "MOVDN7" => e(None, 8, &[0, 1, 2, 3, 4, 5, 6, 7], true),
+        "MOVUP8" | "MOVDN8" => e(None, 9, &[0, 1, 2, 3, 4, 5, 6, 7, 8], true),
+        "SWAPW" => e(None, 8, &[0, 1, 2, 3, 4, 5, 6, 7], true),
+        "SWAPW2" => e(None, 12, &[0, 1, 2, 3, 4, 5, 6, 7, 8, 9, 10, 11], true),
+        "SWAPW3" | "SWAPDW" => e(None, 16, &[0, 1, 2, 3, 4, 5, 6, 7, 8, 9, 10, 11, 12, 13, 14, 15], true),
+        "ADVPOPW" => e(None, 4, &[], false),
+        "EXPACC" | "EXT2MUL" => e(None, 4, &[0, 1, 2, 3], true),
+        "ASSERT" | "DROP" | "FMPUPDATE" | "SPLIT" | "LOOP" | "REPEAT" => e(Left, 1, &[], true),
+        "MSTORE" | "MSTOREW" => e(Left, 1, &[], true),
+        "EQ" | "ADD" | "MUL" | "AND" | "OR" => e(Left, 2, &[0], true),
+        "U32AND" | "U32XOR" => e(Left, 2, &[], false),
+        "CSWAP" => e(Left, 3, &[0, 1], true),
+        "CSWAPW" => e(Left, 9, &[0, 1, 2, 3, 4, 5, 6, 7], true),
+        "MLOADW" => e(Left, 5, &[], false),
+        "PAD" | "DUP" | "DUP1" | "DUP2" | "DUP3" | "DUP4" | "DUP5" | "DUP6" | "DUP7" | "DUP9" | "DUP11" | "DUP13" | "DUP15" | "SDEPTH" | "CLK" => e(Right, 0, &[0], true),
+        "ADVPOP" | "PUSH" => e(Right, 0, &[], false),
+        "U32ADD" | "U32SUB" | "U32MUL" | "U32DIV" => e(None, 2, &[0, 1], true),
+        "U32SPLIT" => e(Right, 1, &[0, 1], true),
+        "U32ASSERT2" => e(None, 0, &[], true),
+        "U32ADD3" | "U32MADD" => e(Left, 3, &[0, 1], true),
+        "HPERM" => e(None, 12, &[], false),
+        "MPVERIFY" => e(None, 0, &[], false),
+        "MRUPDATE" => e(None, 4, &[], false),
+        // MSTREAM (io_ops.md): no change from position 8 except position 12, which is incremented by 2
+        "MSTREAM" => e(None, 8, &[], false),
+        "END" => {
+            // END shifts left when it exits a loop (decoder helper h5 / is_loop flag, column 21)
+            if x.cur[21].as_int() == 1 {
+                e(Left, 1, &[], true)
+            } else {
+                e(None, 0, &[], true)
+            }
+        }
+        // CALLER, PIPE, FRIE2F4, RCOMBBASE: no constraint description in docs/src/design/stack
+        _ => Option::None,
+    }
+}
+
+/// number of helper registers the documentation ties to the operands by a transition constraint
+fn helpers_determined(op: u8, k: usize, x: &RowCtx) -> bool {
+    let s = |i: usize| x.cur[S0 + i].as_int();
+    match op_name(op) {
+        // the inverse helper is only pinned down when the value it inverts is non-zero
+        "EQZ" => k == 0 && s(0) != 0,
+        "EQ" => k == 0 && s(0) != s(1),
+        "EXPACC" => k == 0,
+        "U32ADD" | "U32ADD3" => k < 3,
+        "U32SUB" => k < 2,
+        "U32ASSERT2" | "U32DIV" => k < 4,
+        "U32SPLIT" | "U32MUL" | "U32MADD" => {
+            if k < 4 {
+                true
+            } else if k == 4 {
+                // m = (2^32 - 1 - v_hi)^-1 is pinned down only when v_lo != 0 (u32_ops.md, element validity)
+                let lo = x.cur[HELPER0].as_int() + (x.cur[HELPER0 + 1].as_int() << 16);
+                lo != 0
+            } else {
+                false
+            }
+        }
+        _ => false,
+    }
+}
+
+/// Some(reason) if the documentation leaves `cell` free for this row pair (a mutation of it need
+/// not be rejected by a transition constraint); None if the cell is determined / in scope.
+fn spec_free(c: Cell, x: &RowCtx) -> Option<&'static str> {
+    let op = x.opcode;
+    match c {
+        Cell::Clk => None,
+        Cell::Fmp => {
+            if op_name(op) == "FMPUPDATE" {
+                None
+            } else {
+                Some("system_ops.md constrains fmp' only for FMPUPDATE; elsewhere fmp is carried by the decoder / block stack table")
+            }
+        }
+        Cell::B0 => {
+            // depth: b0' - b0 + f_shl * f_ov - f_shr = 0 (stack/main.md); CALL / SYSCALL / END of a call
+            // reset / restore the depth through the block stack table (decoder/main.md)
+            match op_name(op) {
+                "CALL" | "SYSCALL" | "DYN" => Some("depth is reset to 16 at a context switch via the block stack table"),
+                "END" if x.cur[22].as_int() == 1 || x.cur[23].as_int() == 1 => Some("depth is restored at the end of a call via the block stack table"),
+                _ => None,
+            }
+        }
+        Cell::B1 => match effect(op, x) {
+            Some(e) if e.shift == Shift::Right => None,
+            _ => Some("stack/main.md constrains b1' only on a right shift (b1' = clk); on a left shift it comes from the removed overflow row (p1), otherwise no constraint is documented"),
+        },
+        Cell::H0Cur => {
+            if x.depth == 16 {
+                Some("h0 is arbitrary when the depth is 16 (stack/main.md, overflow flag)")
+            } else {
+                None
+            }
+        }
+        Cell::Helper(k) => {
+            if helpers_determined(op, k, x) {
+                None
+            } else {
+                Some("helper register not tied to the operands by a documented transition constraint for this operation (unused, bus-checked, or an inverse of zero)")
+            }
+        }
+        Cell::S(i) => {
+            let Some(e) = effect(op, x) else { return Some("no constraint description for this operation in docs/src/design/stack (CALLER, PIPE, FRIE2F4, RCOMBBASE)") };
+            if x.row_is_padding {
+                return None;
+            }
+            // cells covered by the documented shift rule
+            let by_shift = match e.shift {
+                Shift::None => i >= e.from,
+                Shift::Right => i >= e.from + 1,
+                Shift::Left => i + 1 >= e.from && i < 15,
+            };
+            if op_name(op) == "MSTREAM" && i == 12 {
+                return None; // s12' = s12 + 2
+            }
+            if by_shift {
+                return None;
+            }
+            if e.shift == Shift::Left && i == 15 {
+                return if x.ov { Some("s15' comes from the overflow table (p1) on a left shift with a non-empty table") } else { None };
+            }
+            if e.top.contains(&i) && e.in_scope_top {
+                return None;
+            }
+            Some("result cell set through a lookup / bus or by an operation outside the classes the property names (I/O, crypto); only the documented shift is in scope")
+        }
+        Cell::Chip(col) => {
+            let r = x.row + 1; // the altered row
+            match (x.chiplet, x.chiplet_next) {
+                ("hasher", "hasher") => match col {
+                    4..=15 => None, // state: the round function ties it to a neighbouring row
+                    2 | 3 if (1..=6).contains(&(r % 8)) => None, // s1, s2 are copied inside a cycle
+                    16 if r % 8 != 0 => None, // node index is constant inside a cycle
+                    _ => Some("hasher s0 is unconstrained inside a cycle; selectors / index at cycle boundaries follow flag-dependent rules that are not classified here"),
+                },
+                ("bitwise", "bitwise") => match col {
+                    2..=14 => None,
+                    _ => Some("chiplet selector columns (segment boundaries are the prover's choice) or unused bitwise columns"),
+                },
+                ("memory", "memory") => match col {
+                    // d0, d1: 16-bit limbs of the documented delta
+                    12 | 13 => None,
+                    // value of a read: copied from the previous access of the same word or zero
+                    8..=11 if x.next[CHIP + 3].as_int() == 1 => None,
+                    _ => Some("memory selectors, written values (set through the bus), and the ctx / addr / clk cells whose role depends on the n0 / n1 case split are not classified here"),
+                },
+                _ => Some("transition between chiplets, kernel ROM or padding rows: outside the chiplets the property names"),
+            }
+        }
+        Cell::RangeM | Cell::RangeV => {
+            if c == Cell::RangeV && x.next[RANGE_M].as_int() == 0 {
+                Some("a range-table row with multiplicity 0 does not enter the LogUp sum; it only has to respect the allowed step sizes")
+            } else if x.row + 1 == x.n - 2 {
+                Some("last row before the random row: the value is fixed by a boundary assertion and the multiplicity is never used")
+            } else {
+                None
+            }
+        }
+        Cell::BRange => None,
+    }
+}
+
+fn sweep(ctx: &Ctx, case: &ProgCase, challenges: &[Q], tally: &Mutex<Tally>, dump: bool) {
+    let cj = || json!({"name": case.name, "src": case.src, "kernel": case.kernel, "stack": case.stack, "advice": case.advice, "merkle": !case.merkle_leaves.is_empty()});
+    let program = match mcx::guard::catch(|| case.assembler().compile(&case.src)) {
+        Ok(Ok(p)) => p,
+        _ => {
+            ctx.fail(json!({"kind": "family_program_does_not_assemble"}), case.name.clone(), cj());
+            return;
+        }
+    };
+    let mut trace = match exec_trace(&program, &case.stack, case.advice_inputs(), processor::ExecutionOptions::default()) {
+        Ok(Ok(t)) => t,
+        _ => {
+            ctx.fail(json!({"kind": "family_program_does_not_execute"}), case.name.clone(), cj());
+            return;
+        }
+    };
+    let si = stack_inputs(&case.stack);
+    let air = airx::make_air(&trace, &si);
+    let aux = trace.build_aux_segment::<Q>(&[], challenges).expect("aux");
+    let mut rand = AuxTraceRandElements::<Q>::new();
+    rand.add_segment_elements(challenges.to_vec());
+    let main = trace.main_segment();
+    let n = main.num_rows();
+    let width = main.num_cols();
+    let periodic = air.get_periodic_column_values();
+    let nmain = air.context().num_main_transition_constraints();
+    let naux = air.context().num_aux_transition_constraints();
+    let mut local = Tally::default();
+    let mut mf = EvaluationFrame::<Felt>::new(width);
+    let mut af = EvaluationFrame::<Q>::new(airx::AUX_WIDTH);
+    let mut mf2 = EvaluationFrame::<Felt>::new(width);
+    let mut af2 = EvaluationFrame::<Q>::new(airx::AUX_WIDTH);
+    let mut me = vec![Felt::ZERO; nmain];
+    let mut ae = vec![Q::ZERO; naux];
+    let cycles = trace.trace_len_summary().main_trace_len();
+    for i in 0..n - 2 {
+        main.read_row_into(i, mf.current_mut());
+        main.read_row_into(i + 1, mf.next_mut());
+        aux.read_row_into(i, af.current_mut());
+        aux.read_row_into(i + 1, af.next_mut());
+        let pv = airx::periodic_at(&periodic, i);
+        // 0 deviations: the honest frame must satisfy everything (else the trace is not a valid base)
+        me.iter_mut().for_each(|x| *x = Felt::ZERO);
+        air.evaluate_transition(&mf, &pv, &mut me);
+        if me.iter().any(|v| *v != Felt::ZERO) {
+            ctx.fail(json!({"kind": "honest_frame_violates_air"}), format!("{} row {i}", case.name), cj());
+            return;
+        }
+        local.rows += 1;
+        let cur: Vec<Felt> = mf.current().to_vec();
+        let next: Vec<Felt> = mf.next().to_vec();
+        let mut opcode = 0u8;
+        for b in 0..7 {
+            opcode |= ((cur[OPB + b].as_int() & 1) as u8) << b;
+        }
+        let x = RowCtx {
+            opcode,
+            depth: cur[B0].as_int(),
+            ov: cur[B0].as_int() > 16,
+            chiplet: chiplet_kind(&cur),
+            chiplet_next: chiplet_kind(&next),
+            row: i,
+            n,
+            row_is_padding: i >= cycles,
+            cur: cur.clone(),
+            next: next.clone(),
+        };
+        // candidate cells
+        let mut cells: Vec<Cell> = vec![];
+        if i < cycles {
+            cells.extend((0..16).map(Cell::S));
+            cells.extend([Cell::B0, Cell::B1, Cell::H0Cur, Cell::Clk, Cell::Fmp]);
+            cells.extend((0..6).map(Cell::Helper));
+        } else {
+            // padding rows (HALT): the stack and system columns must still be carried over
+            cells.extend([Cell::S(0), Cell::S(15), Cell::B0, Cell::Clk]);
+        }
+        if x.chiplet != "padding" || x.chiplet_next != "padding" {
+            cells.extend((0..CHIP_END - CHIP).map(Cell::Chip));
+        }
+        cells.extend([Cell::RangeM, Cell::RangeV, Cell::BRange]);
+        for c in cells {
+            let (col, in_next) = c.col();
+            let region = match c {
+                Cell::Chip(_) if x.chiplet_next == "hasher" || x.chiplet_next == "bitwise" => format!("chiplet:{}->{}@{}", x.chiplet, x.chiplet_next, (i + 1) % 8),
+                Cell::Chip(_) => format!("chiplet:{}->{}", x.chiplet, x.chiplet_next),
+                Cell::RangeM | Cell::RangeV | Cell::BRange => "range".to_string(),
+                _ => op_name(opcode).to_string(),
+            };
+            let key = (region.clone(), c.name());
+            if c == Cell::BRange {
+                let old = af.next()[AUX_B_RANGE];
+                for d in [old + Q::ONE, old - Q::ONE, old + old, Q::ZERO, Q::ONE, af.current()[AUX_B_RANGE]] {
+                    if d == old {
+                        continue;
+                    }
+                    af.next_mut()[AUX_B_RANGE] = d;
+                    ae.iter_mut().for_each(|v| *v = Q::ZERO);
+                    air.evaluate_aux_transition(&mf, &af, &pv, &rand, &mut ae);
+                    let rejected = ae.iter().any(|v| *v != Q::ZERO);
+                    let e = local.per.entry(key.clone()).or_insert([0; 4]);
+                    e[0] += 1;
+                    local.frames += 1;
+                    if rejected {
+                        e[1] += 1;
+                    } else {
+                        e[3] += 1;
+                        if !dump {
+                            ctx.fail(json!({"kind": "deviation_not_rejected", "op": region, "cell": c.name()}), format!("{} row {i}: b_range' altered, no aux constraint fires", case.name), json!({"prog": cj(), "row": i, "cell": c.name()}));
+                        }
+                    }
+                }
+                af.next_mut()[AUX_B_RANGE] = old;
+                continue;
+            }
+            let old = if in_next { next[col] } else { cur[col] };
+            let neighbour = if in_next { next[(col + 1).min(width - 1)] } else { cur[(col + 1).min(width - 1)] };
+            // cells of the chiplets and of the range checker are judged on the trace: both row pairs
+            // that contain the cell are evaluated (their logic mixes single-row and transition
+            // constraints); stack / system cells on the producing transition alone
+            let two_frames = matches!(c, Cell::Chip(_) | Cell::RangeM | Cell::RangeV) && i + 1 < n - 2;
+            for d in deltas(old, neighbour) {
+                if in_next {
+                    mf.next_mut()[col] = d;
+                } else {
+                    mf.current_mut()[col] = d;
+                }
+                me.iter_mut().for_each(|v| *v = Felt::ZERO);
+                air.evaluate_transition(&mf, &pv, &mut me);
+                let mut rejected = me.iter().any(|v| *v != Felt::ZERO);
+                if !rejected && matches!(c, Cell::RangeM | Cell::RangeV) {
+                    ae.iter_mut().for_each(|v| *v = Q::ZERO);
+                    air.evaluate_aux_transition(&mf, &af, &pv, &rand, &mut ae);
+                    rejected = ae.iter().any(|v| *v != Q::ZERO);
+                }
+                if !rejected && two_frames {
+                    // the following row pair: the altered row is now the current one
+                    main.read_row_into(i + 1, mf2.current_mut());
+                    main.read_row_into(i + 2, mf2.next_mut());
+                    mf2.current_mut()[col] = d;
+                    let pv2 = airx::periodic_at(&periodic, i + 1);
+                    me.iter_mut().for_each(|v| *v = Felt::ZERO);
+                    air.evaluate_transition(&mf2, &pv2, &mut me);
+                    rejected = me.iter().any(|v| *v != Felt::ZERO);
+                    if !rejected && matches!(c, Cell::RangeM | Cell::RangeV) {
+                        aux.read_row_into(i + 1, af2.current_mut());
+                        aux.read_row_into(i + 2, af2.next_mut());
+                        ae.iter_mut().for_each(|v| *v = Q::ZERO);
+                        air.evaluate_aux_transition(&mf2, &af2, &pv2, &rand, &mut ae);
+                        rejected = ae.iter().any(|v| *v != Q::ZERO);
+                    }
+                }
+                let e = local.per.entry(key.clone()).or_insert([0; 4]);
+                e[0] += 1;
+                local.frames += 1;
+                if rejected {
+                    e[1] += 1;
+                } else if let Some(_why) = spec_free(c, &x) {
+                    e[2] += 1;
+                } else {
+                    e[3] += 1;
+                    if std::env::var("VMC_C04_ONLY").is_ok() {
+                        println!("DEBUG row {i} op {} cell {} old {} new {} depth {} h0 {}", op_name(opcode), c.name(), old.as_int(), d.as_int(), x.depth, cur[H0].as_int());
+                    }
+                    if !dump {
+                        let ctxs = format!("depth={} ov={} row%8={}", x.depth, x.ov, i % 8);
+                        ctx.fail(
+                            json!({"kind": "deviation_not_rejected", "op": region, "cell": c.name()}),
+                            format!("{} row {i} ({}): {} altered from {} to {} and no transition constraint fires [{ctxs}]", case.name, region, c.name(), old.as_int(), d.as_int()),
+                            json!({"prog": cj(), "row": i, "cell": c.name(), "new": d.as_int()}),
+                        );
+                    }
+                }
+            }
+            if in_next {
+                mf.next_mut()[col] = old;
+            } else {
+                mf.current_mut()[col] = old;
+            }
+        }
+    }
+    let mut t = tally.lock().unwrap();
+    t.frames += local.frames;
+    t.rows += local.rows;
+    for (k, v) in local.per {
+        let e = t.per.entry(k).or_insert([0; 4]);
+        for j in 0..4 {
+            e[j] += v[j];
+        }
+    }
+}
+
+/// single operations applied directly to the initial stack, so that the operation executes at depth
+/// exactly 16 (empty overflow table) and 17 (one overflow row)
+fn bare_ops() -> Vec<ProgCase> {
+    let ops = [
+        "add", "mul", "neg", "inv", "not", "and", "or", "eq", "eq.0", "add.1", "swap", "drop", "dup", "dup.7", "dup.15", "push.0", "push.7",
+        "movup.2", "movup.3", "movup.4", "movup.5", "movup.6", "movup.7", "movup.8", "movdn.2", "movdn.3", "movdn.4", "movdn.5", "movdn.6",
+        "movdn.7", "movdn.8", "swapw", "swapw.2", "swapw.3", "swapdw", "cswap", "cswapw", "assert", "u32split", "u32overflowing_add",
+        "u32overflowing_sub", "u32overflowing_mul", "u32divmod", "u32overflowing_add3", "u32overflowing_madd", "u32assert2", "sdepth", "clk",
+        "ext2mul", "u32and", "u32xor", "mem_load", "mem_store", "mem_storew", "mem_loadw", "hperm", "dropw", "padw",
+    ];
+    let mut v = vec![];
+    for o in ops {
+        for (tag, top) in [("eq", [1u64, 1, 0, 1]), ("ne", [1, 0, 1, 1])] {
+            for depth in [16usize, 17] {
+                let mut stack: Vec<u64> = top.to_vec();
+                stack.extend((4..depth).map(|i| 5 + i as u64));
+                v.push(ProgCase { name: format!("bare/{o}/{tag}/in{depth}"), src: format!("begin {o} end"), kernel: None, stack, advice: vec![], merkle_leaves: vec![], tags: vec![] });
+            }
+        }
+    }
+    v
+}
+
+pub fn family(ctx: &Ctx) -> Vec<ProgCase> {
+    let all = progs::p1(false);
+    let mut v: Vec<ProgCase> = all
+        .into_iter()
+        .filter(|c| {
+            let frame = c.name.split('/').nth(1).unwrap_or("");
+            match ctx.tier {
+                mcx::Tier::Quick => matches!(frame, "Top" | "Call" | "While2" | "Exec2" | "Syscall" | "DynExec" | "DynCall"),
+                mcx::Tier::Thorough => true,
+            }
+        })
+        .collect();
+    v.extend(progs::shapes().into_iter().filter(|c| ctx.tier == mcx::Tier::Thorough || c.name.starts_with("deep_out") || c.name.ends_with("/8") || c.name.ends_with("/30") || c.name.ends_with("/20")));
+    v.extend(bare_ops());
+    v
+}
+
+pub fn run(ctx: &Ctx, replay: Option<&Value>) -> i32 {
+    let challenges = airx::challenge_vectors(ctx.seed, 1).remove(0);
+    let tally = Mutex::new(Tally::default());
+    let dump = std::env::var("VMC_C04_DUMP").is_ok();
+    if let Some(case) = replay {
+        let p = &case["prog"];
+        let u = |v: &Value| -> Vec<u64> { v.as_array().map(|a| a.iter().map(|x| x.as_u64().unwrap()).collect()).unwrap_or_default() };
+        let pc = ProgCase {
+            name: p["name"].as_str().unwrap_or("replay").into(),
+            src: p["src"].as_str().unwrap().into(),
+            kernel: p["kernel"].as_str().map(String::from),
+            stack: u(&p["stack"]),
+            advice: u(&p["advice"]),
+            merkle_leaves: if p["merkle"].as_bool().unwrap_or(false) { progs::MERKLE_LEAVES.to_vec() } else { vec![] },
+            tags: vec![],
+        };
+        println!("program {}: {}\nrow {} cell {} (the whole trace is re-swept)", pc.name, pc.src, case["row"], case["cell"]);
+        sweep(ctx, &pc, &challenges, &tally, false);
+        return ctx.finish("fault_enumeration", json!({}), &[]);
+    }
+    let mut fam = family(ctx);
+    if let Ok(only) = std::env::var("VMC_C04_ONLY") {
+        fam.retain(|c| c.name.starts_with(&only));
+    }
+    fam.par_iter().for_each(|c| sweep(ctx, c, &challenges, &tally, dump));
+    let t = tally.into_inner().unwrap();
+    if dump {
+        for ((op, cell), v) in &t.per {
+            if v[3] > 0 {
+                println!("UNREJECTED {op:28} {cell:14} mutations={} rejected={} unrejected={}", v[0], v[1], v[3]);
+            }
+        }
+    }
+    let pairs_rejected = t.per.values().filter(|v| v[1] > 0).count();
+    let pairs_free_only = t.per.values().filter(|v| v[1] == 0 && v[2] > 0).count();
+    let table: BTreeMap<String, Value> = t.per.iter().map(|((op, cell), v)| (format!("{op} {cell}"), json!({"mutations": v[0], "rejected": v[1], "spec_free": v[2], "violations": v[3]}))).collect();
+    ctx.sample(json!({"program": fam[0].src, "row": 3, "cell": "s0'", "deltas": ["+1", "-1", "*2", ":=0", ":=1", "+2^16", "+2^32", ":=neighbour"]}));
+    let cov = json!({
+        "evaluations": t.frames,
+        "distinct_nontrivial": pairs_rejected,
+        "rule": "evaluation = one mutated frame; distinct non-trivial = (operation or chiplet region, cell) pairs for which at least one mutation was rejected by a transition constraint",
+        "programs": fam.len(),
+        "row_pairs": t.rows,
+        "mutated_frames": t.frames,
+        "(op, cell) pairs": t.per.len(),
+        "(op, cell) pairs with a rejected mutation": pairs_rejected,
+        "(op, cell) pairs only ever spec_free": pairs_free_only,
+        "per (op, cell)": table,
+        "exhaustive": true,
+        "bounds": "every row pair i < n-2 of every trace of the family x candidate cells x 8 deltas, one cell at a time (deviation bound 1)",
+    });
+    ctx.finish("fault_enumeration", cov, &[
+        "a mutation the AIR accepts is only a violation if docs/src/design does not leave that cell free for that operation (function spec_free cites the reason per case)",
+        "single-cell deviations only; I/O, crypto and FRI operations and the decoder columns are in scope only for their documented stack-shift effect",
+    ])
 }
